@@ -1,6 +1,7 @@
 import CkbVerif.Model.MMR
 import CkbVerif.Model.Filter
 import CkbVerif.Lemmas.Filter
+import CkbVerif.Lemmas.FilterRestart
 import CkbVerif.Lemmas.MMRSize
 import CkbVerif.Lemmas.MMRCommit
 /-!
@@ -307,5 +308,36 @@ theorem filter_hash_chains {ρ : Type} (H : ρ → Nat → ρ) (zero : ρ) (blk 
 
 example : ChainInv (fun (p : Nat) d => 100 * p + d) 0 (fun i => ⟨i, i - 1, i⟩) ⟨[], none⟩ := by
   intro id h hl; simp [lookupHash] at hl
+
+/-- **Restart point of the filter service.** Whatever the block tree and whichever fork the latest
+built block is on: if the stored filters are parent-closed and `latest` has one (`Closed` — true
+initially and preserved by every pass), one pass of `build_filter_data` over a well-formed
+snapshot never hits the `expect("parent block filter data stored")` panic, and afterwards *every*
+main-chain block `0 ..= tip` has a filter hash; the state is again `Closed`. (Together with
+`filter_hash_chains` the hashes then chain along the whole main chain.) -/
+theorem filter_restart_point {ρ : Type} (H : ρ → Nat → ρ) (zero : ρ) (v : View) (hwf : WF v)
+    (s : FState ρ) (hc : Closed v s) :
+    ∃ s', buildFilterData H zero v s = some s' ∧
+      (∀ n, n ≤ v.tip → builtP s' (v.mainAt n)) ∧ Closed v s' := by
+  obtain ⟨hmb, hle⟩ := start_mainBuilt v hwf s hc
+  obtain ⟨s', hs', hmb', hc'⟩ := buildRange_catchup H zero v hwf (v.tip + 1 - startNumber v s.latest)
+    (startNumber v s.latest) s (by omega) hmb hc
+  exact ⟨s', hs', fun n hn => hmb' n (by omega) hn, hc'⟩
+
+/-- the empty filter store is `Closed` -/
+theorem closed_init {ρ : Type} (v : View) : Closed v (⟨[], none⟩ : FState ρ) :=
+  ⟨fun id h => by simp [builtP, lookupHash] at h, fun l h => by simp at h⟩
+
+/-- non-vacuity and the fork-recovery branch on a concrete tree: main chain 0-1-2, filters built,
+then a reorg to 0-1-3-4 (ids): the pass restarts at block 3 and builds 3 and 4. -/
+example :
+    let blk : Nat → Blk := fun i => match i with
+      | 0 => ⟨0, 0, 0⟩ | 1 => ⟨1, 0, 1⟩ | 2 => ⟨2, 1, 2⟩ | 3 => ⟨3, 1, 2⟩ | 4 => ⟨4, 3, 3⟩ | n => ⟨n, 0, 99⟩
+    let v1 : View := ⟨blk, fun i => i ≤ 2, fun n => n, 2⟩
+    let v2 : View := ⟨blk, fun i => i = 0 || i = 1 || i = 3 || i = 4, fun n => match n with | 2 => 3 | 3 => 4 | n => n, 3⟩
+    let H : List Nat → Nat → List Nat := fun p d => d :: p
+    ((buildFilterData H [] v1 ⟨[], none⟩).bind fun s1 =>
+      (buildFilterData H [] v2 s1).map fun s2 => (startNumber v2 s1.latest, s2.built.map (·.1), s2.latest))
+      = some (2, [4, 3, 2, 1, 0], some 4) := by decide
 
 end CkbVerif.C19
